@@ -30,6 +30,7 @@ def gen_ops(tier, rng):
         ops += [f'first {n} {r}', f'stride {r}', f'parent {n} -']
     return ops
 
+@common.guarded(lambda **a: f"coverage check of compact({a['X'][:6]}{'...' if len(a['X']) > 6 else ''})", lambda **a: {'cells': a['X']})
 def check_list(drv, X, fails):
     arg = list(X)
     try:
